@@ -26,8 +26,8 @@ CHECKS = {
             "The OS is modelled under the property's own assumptions (atomic pages, ordered length changes, fdatasync complete, punch immediate); torn writes inside one event and multi-threaded crash histories are not generated.",
             "DESIGN.md §4 C05"),
     "C12": ("E-CRASH", "fault_enumeration",
-            "online punch-event checker against durable and live metadata + crash images inside compact()",
-            "Compaction-heavy histories: every Punch event is checked against the page-rounded content of every region according to both the durable regions-file shadow and the live one; each compact() is followed by a full model comparison and layout walk; the data-file length must not change; every event boundary inside compact() yields crash images judged as in C05. (The concurrent clause is served by the controlled scheduler, see DESIGN.)",
+            "online punch-event checker against durable and live metadata + crash images inside compact() + controlled-scheduler enumeration of writer-vs-compact interleavings",
+            "Sequential part - compaction-heavy histories: every Punch event is checked against the page-rounded content of every region according to both the durable regions-file shadow and the live one; each compact() is followed by a full model comparison and layout walk; the data-file length must not change; every event boundary inside compact() yields crash images judged as in C05. Concurrent part - a writer appending into its region's reserve (page-crossing, sub-page, exactly to the page end) against compact() under the controlled scheduler, depth-first over all interleavings up to 3 pre-emptions: region bytes/length, the untouched regions, the file's logical length and the extent invariants are compared afterwards.",
             "Same OS model as C05; punch support of the scratch file system is required (otherwise inconclusive).",
             "DESIGN.md §4 C12"),
     "C03": ("E-MODEL", "exploration",
@@ -95,6 +95,21 @@ CHECKS = {
             "The harness re-executes itself as 1-3 command-server child processes; the parent (itself a participant) issues OPEN (min_len 0 / below / above the current size), CLONE, region-derived database reference, READER, background task, WRITE+FLUSH and DROP commands in random order. While any holder of any participant is alive every other open (same process or not) must fail with a lock error and leave `data` and `regions` byte-identical (size and content hash before/after); once the last holder is gone the next open must succeed and see exactly the digest the previous holder flushed. Rounds of 2-8 threads racing to open with an occupancy counter prove that two never hold at once.",
             "Advisory flock semantics of the local file system; a participant never writes while it holds a reader (documented misuse).",
             "DESIGN.md §4 C18"),
+    "C09": ("E-SCHED", "exploration",
+            "controlled scheduler on the real locks + prefix oracle on every value a reader obtains",
+            "One write() in a chosen regime (raw: in place / growth with relocation / large growth / first write; compressed: fast raw append / partial-page re-encode / fresh pages / page filled exactly / first write) runs against one reader operation (tail range, last element, point reader, full fold through a read-only clone) for Bytes, Pco, LZ4 and Zstd. Both threads are managed: they stop at every acquisition of a tapped lock and at the named points inside the write paths (after the region write, after the page-index update, after the length publication ...), one thread runs at a time, and schedules are drawn first at random (seeded) and then enumerated depth-first up to the pre-emption bound. The pushed value is a function of the index, so every element the reader obtains below the length it observed is checked, lengths must not decrease and a panic or a (child-process-confirmed) deadlock is a violation.",
+            "Pre-emption bound 2 (thorough 3) and a run cap per scenario - `exhaustive` is reported per scenario only when the tree was finished; one writer, one reader.",
+            "DESIGN.md §4 C09"),
+    "C10": ("E-SCHED", "exploration",
+            "controlled scheduler + per-thread byte models, extent walker at quiescence, provenance check of reader bytes",
+            "Threads that create, append (through every placement path), truncate, flush and grow their own regions are interleaved at lock-acquisition / named-point granularity (two threads: depth-first up to 2 pre-emptions; three: seeded random schedules); after every operation the thread compares its region with its own byte model, and at quiescence the extent invariants of C02 are walked. Directed scenarios: two creators on a file whose allocated area ends one page before the end of the file, and a reader held across relocation + flush + re-use of the old extent (bytes below the snapshot length must be bytes the region held).",
+            "Bounded pre-emptions / run caps; the reader clause is decided on the directed scenario.",
+            "DESIGN.md §4 C10"),
+    "C11": ("E-SCHED", "exploration",
+            "controlled scheduler with a lock model (writer preference), lock-order graph, guided schedules for graph cycles, deadlock confirmation in a child process",
+            "A catalogue of 14 operations (writes through each placement path incl. file growth, write_at, truncate, rename, remove+create, create, Region::flush, Database::flush, compact, background compact + join, reader, retain) is run in all 105 pairs (depth-first, bounded pre-emptions) and in the triples that contain a file-growing operation (seeded random schedules). Every acquisition feeds a lock-order graph (held class/mode -> acquired class/mode per operation); for each cycle that needs a queued writer (reader/reader conflict under writer preference) the triple (holder A, holder B, writer W) is run under guided schedules that drive each thread to its critical request in all six orders. 'Unfinished threads and none enabled' under the lock model (a queued writer blocks new readers; queueing up is an explicit step) is a modelled deadlock; it is reported only if the same threads, released into the real blocking locks in a child process, make no progress for 3 s.",
+            "Finite catalogue on rawdb regions; bounded pre-emptions; the writer-preference rule is the assumption the property states; no thread keeps a reader across another call of its own.",
+            "DESIGN.md §4 C11"),
 }
 
 NOT_YET = {}
@@ -139,6 +154,7 @@ def main():
             {"name": "E-LAZY", "path": "harness/src/c_lazy.rs", "serves_properties": ["C15"], "kind_free_text": "formula oracle + read-API grid for lazy vectors, exhaustive small mappings"},
             {"name": "E-CODEC", "path": "harness/src/c_codec.rs", "serves_properties": ["C07", "C17"], "kind_free_text": "independent page-index parser; codec fuzzer in child shards with a counting allocator"},
             {"name": "E-PROC", "path": "harness/src/c_proc.rs", "serves_properties": ["C18"], "kind_free_text": "multi-process command-server driver with a holder-set model"},
+            {"name": "E-SCHED", "path": "harness/src/sched.rs, harness/src/c_sched.rs", "serves_properties": ["C09", "C10", "C11", "C12"], "kind_free_text": "controlled scheduler for real threads at lock-acquisition / named-point granularity with a parking_lot lock model; DFS / random / guided policies; deadlock confirmation in a child process"},
             {"name": "E-CRASH", "path": "harness/src/crash.rs, harness/src/c_crash.rs", "serves_properties": ["C05", "C12"], "kind_free_text": "durable-image shadow of both files from hook events; crash images recovered by the real open"},
             {"name": "E-LAYOUT", "path": "harness/src/rawmodel.rs (check_layout)", "serves_properties": ["C02", "C10", "C13"], "kind_free_text": "extent/partition invariant walker at quiescent points"},
         ],
